@@ -505,6 +505,10 @@ def run(tier):
         c.finding("c01:scale:xml-attribute-entities:superlinear", "a %d-byte document with nested entity references in an attribute value takes %.0f ms and %d MB; the %d-byte one %.0f ms and %d MB (x%.1f time for %d more bytes)" % (
             ent[7][2], ent[7][0], ent[7][1] // 1024, ent[6][2], ent[6][0], ent[6][1] // 1024, ent[7][0] / max(ent[6][0], 1), ent[7][2] - ent[6][2]), {"levels": 7, "job": {"entry": "xml_buffer", "text": entity_doc(7)}})
     c.cov["growth_factor_for_4x_input"] = growth
+    # the scanner alone, below the grammar: every text up to a bound over mixed alphabets (Lex.tla: Total - no position without a rule under `nodefault` - and the
+    # scan ends), scanned by the real scanner in the sanitizer build
+    import lexconf
+    nlex += lexconf.run(c, quick, "C01", only=("all", "all_old", "all_query", "numbers", "comment"), variant="asan")
     c.cov["traces_validated_against_impl"] = len(jobs) + nlex
     c.cov["evaluations"] = len(jobs) + nlex
     c.cov["distinct_nontrivial"] = len(jobs)
